@@ -255,6 +255,19 @@ func genEntityOpt(r *vh.Rand, second bool, forcedName string) *entityDecl {
 			return vh.Pick(r, []string{"Active", "active", "inProgress", "Done2", "a_b", "Draft", "onHold"})
 		}, rawKey, lowerKey))
 	}
+	// two statuses that differ only in case: distinct symbols for the compiler, a conflict for
+	// protodesc.NewFiles (open enum, names compared after prefix trimming in PascalCase): known finding
+	if !second && r.Chance(3) {
+		base := d.Status[r.Intn(len(d.Status))]
+		variant := strings.ToUpper(base[:1]) + strings.ToLower(base[1:])
+		if variant == base {
+			variant = strings.ToUpper(base)
+		}
+		if variant != base && !ss[rawKey(variant)] {
+			ss[rawKey(variant)] = true
+			d.Status = append(d.Status, variant)
+		}
+	}
 	// edge cases of visitEnumNode/addValue: a first status ending in UNSPECIFIED takes slot 0,
 	// a status that already carries the prefix keeps its name
 	if r.Chance(8) {
@@ -680,7 +693,7 @@ func runC17(cfg *vh.Config) error {
 		decls = append(decls, &fileDecl{Ents: []*entityDecl{d}})
 		kinds = append(kinds, "fixed-name")
 	}
-	nGen := cfg.Scale(160, 4000)
+	nGen := cfg.Scale(130, 4000)
 	for i := 0; i < nGen; i++ {
 		d := genEntity(r)
 		if r.Chance(20) {
@@ -877,7 +890,7 @@ func runC17(cfg *vh.Config) error {
 		Type:   "strcase_case",
 		Check:  "strcase_check",
 	}
-	scf.Terms = strcaseStream(cfg, r.Fork("strcase"), res, cfg.Scale(1000, 20000), &caseNo, distinct)
+	scf.Terms = strcaseStream(cfg, r.Fork("strcase"), res, cfg.Scale(800, 20000), &caseNo, distinct)
 	// entity names used above are strcase inputs too
 	scShards, err := scf.WriteShards(cfg.Out, "sc", strcaseShard)
 	if err != nil {
@@ -980,6 +993,8 @@ func errClass(err error) string {
 		return "duplicate summary name"
 	case strings.Contains(s, "belongs in a oneof and must be optional") || strings.Contains(s, "must be declared before synthetic oneofs"):
 		return "proto3-optional repeated field (optional array or map)"
+	case strings.Contains(s, "using open semantics has conflict"):
+		return "enum values that differ only in case"
 	case strings.Contains(s, "must contain at least one field declaration"):
 		return "proto oneof without members"
 	case strings.Contains(s, "unknown enum value"):
